@@ -7,7 +7,7 @@
    All statements are for ALL sizes n, k, c, numbers of factors / blocks / repeats. *)
 From mathcomp Require Import all_ssreflect all_algebra.
 Require Import C04.Model C04.ProofsBridge C04.ProofsTri C04.ProofsChol C04.ProofsStruct C04.ProofsKron
-               C04.ProofsEig C04.ProofsBlock C04.ProofsAlg C04.ProofsCholFactor C04.ProofsSound C04.ProofsSelect C04.ProofsKronTri C04.ProofsEigKron C04.ProofsJitter C04.ProofsFactor.
+               C04.ProofsEig C04.ProofsBlock C04.ProofsAlg C04.ProofsCholFactor C04.ProofsSound C04.ProofsSelect C04.ProofsKronTri C04.ProofsEigKron C04.ProofsJitter C04.ProofsFactor C04.ProofsAll.
 Set Implicit Arguments.
 Unset Strict Implicit.
 Unset Printing Implicit Defensive.
@@ -247,6 +247,71 @@ Proof. by split=> // -[|[|i]] //= _; split=> // -[|j] //= _; rewrite /Model.vget
 
 Example C04_cholof_returns (s : settings) up :
   exists X, alg_solve RA s (DCholOf up (DDiag 2 [:: 1; 1 : F])) [:: [:: 1; 0]] None = Some X.
+Proof. by eexists; rewrite /alg_solve /select_solve /=; reflexivity. Qed.
+
+(* ======================================================================================================
+   THE ALGORITHM OVER EVERY MODELLED POSITIVE-DEFINITE CLASS, AT ANY NESTING DEPTH.
+   wfpd o (ProofsAll.v) : o is a tree of Dense-like / AddedDiag / Diag (positive) / Identity / Chol / LowRankRootAddedDiag leaves
+   under Kron (any number of factors), KronAddedDiag (general or constant diagonal, the latter with the eigh oracle's
+   specification per factor), BlockDiag / BlockInterleaved (any number of blocks of one class) and BatchRepeat, every dense
+   matrix that gets factorised being symmetric with a successful plain Cholesky (numerically PD).
+   For EVERY settings record, whatever select_solve picks at every level (Cholesky of the dense matrix, one Cholesky per Kronecker
+   factor + two sweeps, per-factor solves through the rotation, eigen-shift, Woodbury, block-wise solves with the base's _solve,
+   diagonal / triangular kernels): a value returned by alg_solve solves  dense_of o * x = b  column by column.
+   (CG routes return no value in the model: residual predicate, C08.) *)
+Theorem C04_alg_solve_sound_all (s : settings) (o : opd F) (B X : cols F) :
+  wfpd o -> alg_solve RA s o B None = Some X ->
+  size X = size B /\ forall j, (j < size B)%N -> solves o (nth [::] X j) (nth [::] B j).
+Proof. exact: alg_solve_sound_all. Qed.
+
+(* ... with a left factor L: L times such a solution (own-solve classes multiply afterwards; Solve.forward solves [L^T | B]) *)
+Theorem C04_alg_solve_sound_all_left (s : settings) (o : opd F) (B Y : cols F) k (L : mat F) :
+  wfpd o -> alg_solve RA s o B (Some (k, L)) = Some Y ->
+  exists X, [/\ size X = size B, forall j, (j < size B)%N -> solves o (nth [::] X j) (nth [::] B j)
+              & Y = left_mul RA k (osize o) L X].
+Proof. exact: alg_solve_sound_all_left. Qed.
+
+(* ... and for a solve routed through the factor operator of either orientation of ANY such operator *)
+Theorem C04_alg_solve_sound_cholof_all (s : settings) up (o : opd F) (B X : cols F) :
+  wfpd o -> alg_solve RA s (DCholOf up o) B None = Some X ->
+  size X = size B /\ forall j, (j < size B)%N -> solves o (nth [::] X j) (nth [::] B j).
+Proof. exact: alg_solve_sound_cholof_all. Qed.
+
+(* METHOD INDEPENDENCE OVER ALL MODELLED CLASSES: for any two settings records and any two routes (direct = whatever the selector
+   picks; or through the factor operator of an orientation), the returned columns coincide.  No invertibility hypothesis: the
+   matrix of a well-formed operator is invertible (C04_wfpd_unit). *)
+Theorem C04_method_independent_all (s1 s2 : settings) (r1 r2 : route_kind) (o : opd F) (B X1 X2 : cols F) :
+  wfpd o -> solve_via s1 r1 o B = Some X1 -> solve_via s2 r2 o B = Some X2 ->
+  forall j, (j < size B)%N ->
+    cv_of (@rsq F) (@rlt F) (osize o) (nth [::] X1 j) = cv_of (@rsq F) (@rlt F) (osize o) (nth [::] X2 j).
+Proof. exact: method_independent_all. Qed.
+
+Theorem C04_method_independent_all_left (s1 s2 : settings) (o : opd F) (B Y1 Y2 : cols F) k (L : mat F) :
+  wfpd o -> alg_solve RA s1 o B (Some (k, L)) = Some Y1 -> alg_solve RA s2 o B (Some (k, L)) = Some Y2 -> Y1 = Y2.
+Proof. exact: method_independent_all_left. Qed.
+
+Theorem C04_wfpd_unit (o : opd F) : wfpd o ->
+  mx_of (@rsq F) (@rlt F) (osize o) (osize o) (dense_of RA o) \in unitmx.
+Proof. exact: wfpd_unit. Qed.
+
+(* the Cholesky route on its own, either orientation: o.cholesky(upper=up)._cholesky_solve(., upper=up) is total on well-formed
+   operators and solves the system (this is what functions/_solve.py runs below max_cholesky_size, with up = false) *)
+Theorem C04_cholesky_route_sound (s : settings) up (o : opd F) : wfpd o ->
+  sound_fn o (run_plan RA s up o (cholesky_plan (cls_of o))).
+Proof. exact: plan_sound. Qed.
+
+(* every route the selector can take is sound when it is direct: the class's solve (.1) and the class's _solve (.2) *)
+Theorem C04_route_sound (s : settings) (o : opd F) : wfpd o -> route_ok s o.
+Proof. exact: route_sound. Qed.
+
+Example C04_wfpd_kron_sat : wfpd (DKron [:: DDiag 2 [:: 1; 1 : F]; DIdentity F 1]).
+Proof. exact: wfpd_kron_sat. Qed.
+Example C04_wfpd_blocks_sat : wfpd (DBlockDiag 2 [:: DDiag 1 [:: 1 : F]; DDiag 1 [:: 1 : F]]).
+Proof. exact: wfpd_blocks_sat. Qed.
+(* the structured Kronecker route (per-factor solves) does return a value *)
+Example C04_kron_structured_returns :
+  let s := MkSettings 0 true 1000 15 2000 false false 8 3 in
+  exists X, alg_solve RA s (DKron [:: DDiag 2 [:: 1; 1 : F]; DIdentity F 1]) [:: [:: 1; 0]] None = Some X.
 Proof. by eexists; rewrite /alg_solve /select_solve /=; reflexivity. Qed.
 
 (* permutation operators on the structured branch *)
